@@ -761,4 +761,52 @@ theorem New_wf (chain : List Level) (h : ∀ l ∈ chain, (∀ c ∈ l.pIP, c.wf
   simp only [New, List.mem_flatMap]
   exact ⟨fun c ⟨l, hl, hc⟩ => (h l hl).1 c hc, fun c ⟨l, hl, hc⟩ => (h l hl).2 c hc⟩
 
+/-! ## 7. `AllDecided` is what well-formed input gives -/
+
+/-- a well-formed name against a well-formed subtree always gets a plain yes/no -/
+theorem matchDomain_decided (d c : Str) (hd : (reverseLabels d).isSome = true)
+    (hc : (reverseLabels (if c.head? = some 46 then c.tail else c)).isSome = true) :
+    matchDomain d c = .yes ∨ matchDomain d c = .no := by
+  unfold matchDomain
+  cases h1 : reverseLabels d with
+  | none => simp [h1] at hd
+  | some dl =>
+    cases h2 : reverseLabels (if c.head? = some 46 then c.tail else c) with
+    | none => simp [h2] at hc
+    | some cl => simp only [h2]; grind
+
+theorem matchIP_decided (i : List Nat) (n : IpNet) (h : n.wf) : matchIP i n = .yes ∨ matchIP i n = .no := by
+  have hc := matchIP_ne_crash i n h
+  have he : matchIP i n ≠ .err := by
+    unfold matchIP; simp only
+    split
+    · simp
+    · generalize normalizeIP i = a
+      generalize normalizeIP n.ip = c
+      generalize n.mask = m
+      induction a generalizing c m with
+      | nil => simp [ipLoop]
+      | cons x xs ih =>
+        cases m with
+        | nil => simp [ipLoop]
+        | cons y ys => cases c with
+          | nil => simp [ipLoop]
+          | cons z zs => unfold ipLoop; split; simp; exact ih zs ys
+  cases h : matchIP i n <;> simp_all
+
+/-- non-vacuity of `engine_eq_spec`: its hypotheses hold for the example chain -/
+example : AllDecided okChain okNames where
+  dns := by
+    intro d hd l hl c hc
+    simp [okNames] at hd; subst hd
+    simp [okChain] at hl
+    rcases hl with rfl | rfl | rfl <;> simp at hc <;> subst hc <;> decide
+  ip := by
+    intro i hi l hl c hc
+    simp [okNames] at hi; subst hi
+    simp [okChain] at hl
+    rcases hl with rfl | rfl | rfl <;> simp at hc <;> subst hc <;> decide
+  email := by intro a ha; cases ha
+  uri := by intro u hu; cases hu
+
 end Verif.Constraints
